@@ -270,10 +270,13 @@ func decodeTargetableBody(body hcl.Body, parentBlock *ast.BlockContent, tt *sche
 	target := reference.Target{
 		Addr:        tt.Address.Copy(),
 		ScopeId:     tt.ScopeId,
-		RangePtr:    parentBlock.Range.Ptr(),
-		DefRangePtr: parentBlock.DefRange.Ptr(),
 		Type:        tt.AsType,
 		Description: tt.Description,
+	}
+	if parentBlock != nil {
+		// the root body has no parent block (and hence no range)
+		target.RangePtr = parentBlock.Range.Ptr()
+		target.DefRangePtr = parentBlock.DefRange.Ptr()
 	}
 
 	if tt.NestedTargetables != nil {
